@@ -9,6 +9,7 @@
 package main
 
 import (
+	"bytes"
 	"encoding/binary"
 	"encoding/hex"
 	"encoding/json"
@@ -228,8 +229,21 @@ func (g *getter) run(buf []byte) obsT {
 	b := make([]byte, len(buf)) // len = cap, as SetLen's make does
 	copy(b, buf)
 	a := &nasType.MobileIdentity5GS{Len: uint16(len(b)), Buffer: b}
-	return catch(func() obsT { return g.f(a) })
+	o := catch(func() obsT { return g.f(a) })
+	// a getter is a read: the element must be unchanged afterwards and a second call on the same
+	// element must give the same answer (otherwise every later conversion of this identity is wrong)
+	if !o.panicked {
+		if !bytes.Equal(b, buf) || int(a.Len) != len(buf) {
+			getterSideEffects = append(getterSideEffects, [3]string{g.name, hk.Hex(buf), "the getter modified the element: Buffer is now " + hk.Hex(b)})
+		} else if o2 := catch(func() obsT { return g.f(a) }); fmt.Sprint(o2) != fmt.Sprint(o) {
+			getterSideEffects = append(getterSideEffects, [3]string{g.name, hk.Hex(buf), "a second call on the same element returns a different result"})
+		}
+	}
+	return o
 }
+
+// (getter, input, what) for getters that are not pure reads; reported as failures at the end of the run
+var getterSideEffects [][3]string
 
 // ---------------------------------------------------------------- independent encoders (TS 24.501 9.11.3.4, TS 24.008 10.5.1.3, TS 23.003)
 
@@ -1548,6 +1562,13 @@ func runC12(r *hk.Run) {
 	for _, k := range c.f9order {
 		r.Fail(c.f9[k])
 	}
+	for i, e := range getterSideEffects {
+		if i >= 20 {
+			break
+		}
+		c.fail("nasType.MobileIdentity5GS."+e[0], "getter-not-a-pure-read", e[1], e[2])
+	}
+	r.Extra["getter_purity_violations"] = len(getterSideEffects)
 	r.Extra["getter_panics_total"] = c.f9count
 	r.Extra["failures_suppressed_as_proposed_known"] = c.suppress
 }
